@@ -7,7 +7,9 @@ use crate::gen::{self, StartState};
 use crate::prng::{hash_str, mix, Rng};
 use crate::report::{catch, nthreads, par_run, Meta, Stats};
 use crate::tokrec::{coalesce, Policy, RTok};
-use crate::tree::{dump_html, dump_xml, TData, TNode};
+use crate::tree::{dump_html, dump_xml, from_rcdom, TData, TNode};
+use html5ever::tendril::StrTendril;
+use markup5ever_rcdom::RcDom;
 use crate::xdrive::{run_xml_parse, run_xml_tokenizer, xcoalesce, XmlOpts};
 use crate::Args;
 use serde_json::{json, Value};
@@ -223,6 +225,113 @@ fn check_xml(input: &str, cuts: &[usize], st: &mut Stats) {
     }
 }
 
+// ---------------------------------------------------------------------------------------------
+// the same option flips through the public driver API (parse_document / parse_fragment with a
+// ParseOpts, fed with process()/finish()), which builds its own TokenizerOpts from the caller's
+
+fn driver_html(input: &str, cuts: &[usize], o: &html5ever::ParseOpts, ctx: Option<&(String, String, Vec<(String, String)>)>) -> Result<String, String> {
+    use html5ever::tendril::TendrilSink;
+    let chunks = split_at_chars(input, cuts);
+    catch(|| {
+        let dom = match ctx {
+            None => {
+                let mut p = html5ever::parse_document(RcDom::default(), o.clone());
+                for c in &chunks {
+                    p.process(StrTendril::from_slice(c));
+                }
+                p.finish()
+            },
+            Some((ns, local, attrs)) => {
+                let name = html5ever::QualName::new(None, html5ever::Namespace::from(ns.as_str()), html5ever::LocalName::from(local.as_str()));
+                let attrs = attrs.iter().map(|(k, v)| html5ever::Attribute { name: html5ever::QualName::new(None, html5ever::ns!(), html5ever::LocalName::from(k.as_str())), value: StrTendril::from_slice(v) }).collect();
+                let mut p = html5ever::parse_fragment(RcDom::default(), o.clone(), name, attrs, true);
+                for c in &chunks {
+                    p.process(StrTendril::from_slice(c));
+                }
+                p.finish()
+            },
+        };
+        dump_html(&strip_doctype(&from_rcdom(&dom.document)))
+    })
+}
+
+fn driver_xml(input: &str, cuts: &[usize], o: &xml5ever::driver::XmlParseOpts) -> Result<String, String> {
+    use xml5ever::tendril::TendrilSink;
+    let chunks = split_at_chars(input, cuts);
+    catch(|| {
+        let mut p = xml5ever::driver::parse_document(RcDom::default(), o.clone());
+        for c in &chunks {
+            p.process(StrTendril::from_slice(c));
+        }
+        dump_xml(&from_rcdom(&p.finish().document))
+    })
+}
+
+fn check_driver(input: &str, cuts: &[usize], ctx: Option<&(String, String, Vec<(String, String)>)>, scripting: bool, st: &mut Stats) {
+    let mut base = html5ever::ParseOpts::default();
+    base.tree_builder.scripting_enabled = scripting;
+    let rep = |flip: &str| json!({"kind": "driver", "input": input, "cuts": cuts, "flip": flip, "scripting": scripting, "context": ctx.map(|c| json!({"ns": c.0, "local": c.1, "attrs": c.2.iter().map(|a| json!([a.0, a.1])).collect::<Vec<_>>()}))});
+    let Ok(reference) = driver_html(input, cuts, &base, ctx) else { return };
+    st.count(if ctx.is_some() { "driver_fragment_cases" } else { "driver_document_cases" });
+    let where_ = if ctx.is_some() { "parse_fragment" } else { "parse_document" };
+    for flip in ["tok.exact_errors", "tok.profile", "tb.exact_errors", "drop_doctype"] {
+        let mut o = base.clone();
+        match flip {
+            "tok.exact_errors" => o.tokenizer.exact_errors = true,
+            "tok.profile" => o.tokenizer.profile = true,
+            "tb.exact_errors" => o.tree_builder.exact_errors = true,
+            _ => o.tree_builder.drop_doctype = true,
+        }
+        match driver_html(input, cuts, &o, ctx) {
+            Err(m) => st.violation(&format!("driver:{flip}:panic"), &format!("{where_} input={} cuts={:?} with {flip}: {m}", show(input), &cuts[..cuts.len().min(6)]), rep(flip)),
+            Ok(d) if d != reference => st.violation(&format!("driver:{flip}"), &format!("{where_} input={} cuts={:?}: default vs {flip} (doctype left out): {}", show(input), &cuts[..cuts.len().min(6)], dump_diff(&reference, &d)), rep(flip)),
+            Ok(_) => {},
+        }
+    }
+    // discard_bom = false on X must equal discard_bom = true on U+FEFF + X (the one dropped character)
+    let mut off = base.clone();
+    off.tokenizer.discard_bom = false;
+    let with_bom = format!("\u{feff}{input}");
+    let shifted: Vec<usize> = std::iter::once(if cuts.first() == Some(&0) { 0 } else { 1 }).chain(cuts.iter().map(|c| c + 1)).collect();
+    if let (Ok(a), Ok(b)) = (driver_html(input, cuts, &off, ctx), driver_html(&with_bom, &shifted, &base, ctx)) {
+        if input.starts_with('\u{feff}') {
+            st.count("driver_bom_first_inputs");
+        }
+        if a != b {
+            st.violation("driver:discard_bom", &format!("{where_} input={}: with discard_bom=false the tree differs from parsing U+FEFF + input with discard_bom=true: {}", show(input), dump_diff(&b, &a)), rep("discard_bom"));
+        }
+    }
+}
+
+fn check_driver_xml(input: &str, cuts: &[usize], st: &mut Stats) {
+    let base = xml5ever::driver::XmlParseOpts::default();
+    let rep = |flip: &str| json!({"kind": "driver-xml", "input": input, "cuts": cuts, "flip": flip});
+    let Ok(reference) = driver_xml(input, cuts, &base) else { return };
+    st.count("driver_xml_cases");
+    for flip in ["tok.exact_errors", "tok.profile"] {
+        let mut o = base.clone();
+        if flip == "tok.exact_errors" {
+            o.tokenizer.exact_errors = true;
+        } else {
+            o.tokenizer.profile = true;
+        }
+        match driver_xml(input, cuts, &o) {
+            Err(m) => st.violation(&format!("driver-xml:{flip}:panic"), &format!("xml input={} with {flip}: {m}", show(input)), rep(flip)),
+            Ok(d) if d != reference => st.violation(&format!("driver-xml:{flip}"), &format!("xml input={} cuts={:?}: default vs {flip}: {}", show(input), &cuts[..cuts.len().min(6)], dump_diff(&reference, &d)), rep(flip)),
+            Ok(_) => {},
+        }
+    }
+    let mut off = base.clone();
+    off.tokenizer.discard_bom = false;
+    let with_bom = format!("\u{feff}{input}");
+    let shifted: Vec<usize> = std::iter::once(1).chain(cuts.iter().map(|c| c + 1)).collect();
+    if let (Ok(a), Ok(b)) = (driver_xml(input, cuts, &off), driver_xml(&with_bom, &shifted, &base)) {
+        if a != b {
+            st.violation("driver-xml:discard_bom", &format!("xml input={}: with discard_bom=false the tree differs from parsing U+FEFF + input with discard_bom=true: {}", show(input), dump_diff(&b, &a)), rep("discard_bom"));
+        }
+    }
+}
+
 pub fn run(args: &Args) -> (Meta, Stats) {
     if let Some(p) = &args.replay {
         let mut st = Stats::new();
@@ -232,6 +341,11 @@ pub fn run(args: &Args) -> (Meta, Stats) {
         match v["kind"].as_str().unwrap_or("") {
             "tok" => check_tok(input, &cuts, parse_start_state(v["start"].as_str().unwrap_or("Data")), v["last_tag"].as_str(), &super::c03::policy_from_json(&v["policy"]), &mut st),
             "tree" => check_tree(input, &cuts, &super::c03::opts_from_json(&v["opts"]), &mut st),
+            "driver" => {
+                let ctx = v["context"].as_object().map(|c| (c["ns"].as_str().unwrap_or("").to_string(), c["local"].as_str().unwrap_or("").to_string(), c["attrs"].as_array().map(|a| a.iter().map(|p| (p[0].as_str().unwrap_or("").to_string(), p[1].as_str().unwrap_or("").to_string())).collect()).unwrap_or_default()));
+                check_driver(input, &cuts, ctx.as_ref(), v["scripting"].as_bool().unwrap_or(true), &mut st)
+            },
+            "driver-xml" => check_driver_xml(input, &cuts, &mut st),
             _ => check_xml(input, &cuts, &mut st),
         }
         return (super::meta(args, "replay of one recorded case", &[]), st);
@@ -286,6 +400,9 @@ pub fn run(args: &Args) -> (Meta, Stats) {
                     let n = input.chars().count();
                     let cuts = random_schedule(&mut rng, n);
                     check_xml(&input, &cuts, st);
+                    if rng.chance(1, 3) {
+                        check_driver_xml(&input, &cuts, st);
+                    }
                 },
                 _ => {
                     let (mut input, opts) = random_html_case(&mut rng, &contexts, &[], false);
@@ -299,6 +416,22 @@ pub fn run(args: &Args) -> (Meta, Stats) {
                     let cuts = random_schedule(&mut rng, n);
                     check_tree(&input, &cuts, &opts, st);
                     st.count("tree_cases");
+                    if rng.chance(1, 3) {
+                        // the same flips through parse_document / parse_fragment and a ParseOpts; metas that
+                        // declare an encoding suspend feed(), which the driver has to ride out
+                        if rng.chance(1, 3) {
+                            let at = rng.below(input.chars().count() + 1);
+                            let mut chars: Vec<char> = input.chars().collect();
+                            let m: Vec<char> = rng.pick_s(&["<meta charset=utf-8>", "<meta http-equiv=content-type content='text/html; charset=x'>", "<meta charset=a><meta charset=b>"]).chars().collect();
+                            for (i, c) in m.into_iter().enumerate() {
+                                chars.insert(at + i, c);
+                            }
+                            input = chars.into_iter().collect();
+                        }
+                        let n = input.chars().count();
+                        let cuts = random_schedule(&mut rng, n);
+                        check_driver(&input, &cuts, opts.context.as_ref(), opts.scripting, st);
+                    }
                 },
             }
         }
@@ -308,6 +441,6 @@ pub fn run(args: &Args) -> (Meta, Stats) {
         "two executions of the real code on the same input and feed schedule that differ in exactly one option: exact_errors / profile (HTML tokenizer, tree builder, XML) must leave tokens (minus parse errors, with lines), tree and quirks mode unchanged; discard_bom may only remove a U+FEFF that is the first character of the stream; drop_doctype may only remove the doctype node. Inputs: all enumerated tokenizer single transitions, markup soup, SIMD-offset text runs (exact_errors forces the scalar path, so this is SIMD vs scalar), grammar documents in ~60 contexts, XML soup and namespace shapes. Non-trivial = more than EOF+1 token / beyond skeleton; distinct by hash of input+schedule+options.",
         &["profile=true makes the library print to stdout; the harness points fd 1 at /dev/null and reports through a saved descriptor"],
     );
-    m.require = vec![("enumerated_cases".into(), enumerated.len() as u64), ("tree_cases".into(), 500), ("xml_cases".into(), 500), ("bom_first_inputs".into(), 50), ("drop_doctype_with_doctype_present".into(), 30)];
+    m.require = vec![("enumerated_cases".into(), enumerated.len() as u64), ("tree_cases".into(), 500), ("xml_cases".into(), 500), ("bom_first_inputs".into(), 50), ("drop_doctype_with_doctype_present".into(), 30), ("driver_document_cases".into(), 300), ("driver_fragment_cases".into(), 100), ("driver_xml_cases".into(), 200)];
     (m, st)
 }
